@@ -543,7 +543,7 @@ def csr_arrays(case):
 def make_cases(ctx, thorough):
     rng = ctx.rng
     cases = []
-    nmat = 1500 if thorough else 110
+    nmat = 1500 if thorough else 90
     fixed = [([[0.1] * 10 for _ in range(10)], "tenths"), ([[1.0]], "single"), ([[1 / 3.0] * 3 for _ in range(3)], "thirds"),
              ([[0.5, 0.5, 0.0], [0.0, 0.5, 0.5], [0.25, 0.25, 0.5]], "small"),
              ([[1 / 7.0] * 7 for _ in range(7)], "sevenths"), ([[0.0, 1.0], [1.0, 0.0]], "flip")]
@@ -654,6 +654,236 @@ def make_cases(ctx, thorough):
     return cases
 
 
+# ------------------------------------------------------------------ hardening audit: dress / state / aliasing / optional arguments /
+# degenerate sizes.  Every variant call must reproduce the CANONICAL call (float64 ndarray, Python ints, fresh objects).
+def _snap(x):
+    import scipy.sparse as sp
+    if sp.issparse(x):
+        x = x.toarray()
+    return np.array(x, copy=True)
+
+
+def harden(ctx, thorough):
+    import scipy.sparse as sp
+    from quantecon.markov.core import MarkovChain, mc_sample_path
+    from quantecon import DiscreteRV
+    import quantecon.random.utilities as qru
+    rng = ctx.rng
+    NPI = [int, np.int64, np.int32, np.intp, np.uint8]
+
+    def canon(P, ts, init, nr, stream, ints, kind="simulate_indices", sv=None):
+        mc = MarkovChain(np.array(P, dtype=np.float64), state_values=sv)
+        return np.asarray(getattr(mc, kind)(int(ts), init=init, num_reps=nr, random_state=ScriptedRS(list(stream) + [0.5] * 16, list(ints) + [0] * 4)))
+
+    def same(a, b):
+        a, b = np.asarray(a), np.asarray(b)
+        return a.shape == b.shape and np.array_equal(a, b)
+
+    def guard(tag, inp, f):
+        try:
+            return True, f()
+        except Exception as e:
+            ctx.fail("exception", "%s raised %s on a valid input" % (tag, type(e).__name__), inp, repr(e)[:200], None)
+            return False, None
+
+    for it in range(60 if thorough else 18):
+        n = rng.choice([1, 2, 3, 3, 4, 5])
+        rows = [gen_row(rng, n, "dyadic") for _ in range(n)]
+        if it % 5 == 0:        # integer matrix (a permutation)
+            perm = list(range(n))
+            rng.shuffle(perm)
+            rows = [[1.0 if j == perm[i] else 0.0 for j in range(n)] for i in range(n)]
+        ts = rng.choice([1, 2, 5, 9])
+        nr = rng.choice([None, 1, 2])
+        init = rng.choice([None, rng.randrange(n), [rng.randrange(n) for _ in range(2)]])
+        k = (1 if nr is None else nr) * (len(init) if isinstance(init, list) else 1)
+        stream = [rng.choice([0.0, ONE_M, rng.randrange(64) / 64.0, rng.random()]) for _ in range(k * max(ts - 1, 0))]
+        ints = [rng.randrange(n) for _ in range(k)]
+        inp = {"function": "simulate_indices(hardening)", "P": rows, "ts": ts, "init": init, "num_reps": nr, "stream": hx(stream), "ints": ints}
+        okc, X0 = guard("canonical call", inp, lambda: canon(rows, ts, init, nr, stream, ints))
+        if not okc:
+            continue
+        ctx.case(("harden", rows, ts, init, nr, hx(stream), ints), nontrivial=(n >= 2 and ts >= 2))
+        A64 = np.array(rows, dtype=np.float64)
+        big = np.zeros((2 * n, 2 * n))
+        big[::2, ::2] = A64
+        isint = all(float(x).is_integer() for r in rows for x in r)
+        dresses = [("list", [list(r) for r in rows]), ("tuple", tuple(tuple(r) for r in rows)), ("float32", A64.astype(np.float32)),
+                   ("F-order", np.asfortranarray(A64)), ("non-contiguous view", big[::2, ::2]), ("csr", sp.csr_matrix(A64)),
+                   ("csc", sp.csc_matrix(A64)), ("coo", sp.coo_matrix(A64)), ("csr float32", sp.csr_matrix(A64.astype(np.float32)))]
+        if isint:
+            dresses += [("int64", A64.astype(np.int64)), ("int32", A64.astype(np.int32)), ("nested int list", [[int(x) for x in r] for r in rows])]
+        for name, Pv in dresses:
+            ctx.count("dress:P=%s" % name)
+            before = _snap(Pv)
+            tsv = rng.choice(NPI)(ts)
+            nrv = None if nr is None else rng.choice(NPI)(nr)
+            iv = init if not isinstance(init, (int, list)) else (rng.choice(NPI)(init) if isinstance(init, int) else
+                                                                rng.choice([list, tuple, np.array])(init))
+            ctx.count("dress:ts_length=%s" % type(tsv).__name__)
+            okc, X = guard("P as %s" % name, dict(inp, P_dress=name), lambda: np.asarray(MarkovChain(Pv).simulate_indices(
+                tsv, init=iv, num_reps=nrv, random_state=ScriptedRS(stream + [0.5] * 16, ints + [0] * 4))))
+            if okc and not same(X, X0):
+                ctx.fail("dress", "simulate_indices with P given as %s / NumPy-integer ts_length, num_reps, init differs from the canonical float64 call" % name,
+                         dict(inp, P_dress=name, ts_type=type(tsv).__name__), X.tolist(), X0.tolist())
+            if not np.array_equal(before, _snap(Pv)):
+                ctx.fail("mutation", "MarkovChain / simulate_indices modified the matrix it was given (%s)" % name, dict(inp, P_dress=name), None, None)
+        # ---- state and sequences on ONE object; several objects alive; lazily cached attributes touched in between
+        other = MarkovChain(np.array([gen_row(rng, n + 1, "dyadic") for _ in range(n + 1)]))
+        mc = MarkovChain(A64)
+        seq_ok = True
+        for step in range(4):
+            what = rng.choice(["cdfs", "stationary", "digraph", "other_object", "state_values", "nothing"])
+            ctx.count("seq:%s" % what)
+            if what == "cdfs":
+                _ = mc.cdfs
+            elif what == "stationary":
+                _ = mc.stationary_distributions
+            elif what == "digraph":
+                _ = mc.is_irreducible, mc.period if mc.is_irreducible else None
+            elif what == "other_object":
+                other.simulate_indices(4, init=0, random_state=ScriptedRS([0.3] * 8))
+            elif what == "state_values":
+                mc.state_values = [3 * i for i in range(n)]
+                mc.state_values = None
+            okc, X = guard("reused object", dict(inp, sequence_step=what), lambda: np.asarray(mc.simulate_indices(
+                ts, init=init, num_reps=nr, random_state=ScriptedRS(stream + [0.5] * 16, ints + [0] * 4))))
+            if okc and not same(X, X0):
+                ctx.fail("stale_state", "a reused MarkovChain object (after %s) differs from a fresh one" % what, dict(inp, sequence_step=what), X.tolist(), X0.tolist())
+                seq_ok = False
+            if okc:
+                X[...] = -7          # results must not alias internal state or each other
+        if seq_ok and not np.array_equal(np.asarray(mc.P), A64):
+            ctx.fail("mutation", "simulate_indices modified MarkovChain.P", inp, None, None)
+        ctx.count("alias:result overwritten between calls", 4)
+        # init array must not be modified
+        if isinstance(init, list):
+            ia = np.array(init, dtype=np.int64)
+            guard("init array", inp, lambda: MarkovChain(A64).simulate_indices(ts, init=ia, num_reps=nr, random_state=ScriptedRS(stream + [0.5] * 16, ints + [0] * 4)))
+            if ia.tolist() != init:
+                ctx.fail("mutation", "simulate_indices modified the init array it was given", inp, ia.tolist(), init)
+            ctx.count("alias:init array snapshot")
+        # ---- optional arguments: omitted vs explicit default; random_state None (global stream) vs seed as Python / NumPy int
+        seed = rng.randrange(2 ** 31)
+        base = np.asarray(MarkovChain(A64).simulate_indices(ts, init=init, num_reps=nr, random_state=np.random.RandomState(seed)))
+        for sname, sval in (("int", seed), ("np.int64", np.int64(seed)), ("np.int32", np.int32(seed)), ("np.uint32", np.uint32(seed))):
+            ctx.count("dress:seed=%s" % sname)
+            okc, X = guard("seed as %s" % sname, dict(inp, seed=seed), lambda: np.asarray(MarkovChain(A64).simulate_indices(ts, init=init, num_reps=nr, random_state=sval)))
+            if okc and not same(X, base):
+                ctx.fail("seed", "random_state=%s(seed) differs from RandomState(seed)" % sname, dict(inp, seed=seed), X.tolist(), base.tolist())
+        np.random.seed(seed)
+        kw = {}
+        if init is not None:
+            kw["init"] = init
+        if nr is not None:
+            kw["num_reps"] = nr
+        okc, X = guard("optional arguments omitted", dict(inp, seed=seed), lambda: np.asarray(MarkovChain(A64).simulate_indices(ts, **kw)))
+        ctx.count("optional:omitted(random_state, and init/num_reps when None)")
+        if okc and not same(X, base):
+            ctx.fail("optional_argument", "omitting random_state/init/num_reps differs from passing None explicitly (global stream seeded alike)", dict(inp, seed=seed), X.tolist(), base.tolist())
+        np.random.seed(seed)
+        okc, X = guard("explicit None", dict(inp, seed=seed), lambda: np.asarray(MarkovChain(A64).simulate_indices(ts, init=init, num_reps=nr, random_state=None)))
+        if okc and not same(X, base):
+            ctx.fail("optional_argument", "random_state=None differs from the seeded global stream", dict(inp, seed=seed), X.tolist(), base.tolist())
+        # ---- state_values forms (annotation = state_values[index path]); 2-d state values; float / string values
+        if init is not None:
+            Xi = canon(rows, ts, init, nr, stream, ints)
+            for svname, sv in (("list", [5 * i + 1 for i in range(n)]), ("tuple", tuple(5 * i + 1 for i in range(n))),
+                               ("float array", np.array([i + 0.5 for i in range(n)])), ("int32 array", np.arange(n, dtype=np.int32) * 2),
+                               ("2-d array", np.array([[i, -i] for i in range(n)])), ("strings", np.array(["s%d" % i for i in range(n)]))):
+                ctx.count("dress:state_values=%s" % svname)
+                sva = np.asarray(sv)
+                iv = sva[init] if isinstance(init, int) else [sva[i] for i in init]
+                if isinstance(init, list) and sva.ndim == 2:
+                    iv = np.array(iv)
+                okc, X = guard("state_values as %s" % svname, dict(inp, state_values=svname), lambda: MarkovChain(A64, state_values=sv).simulate(
+                    ts, init=iv, num_reps=nr, random_state=ScriptedRS(stream + [0.5] * 16, ints + [0] * 4)))
+                if okc and not same(np.asarray(X), sva[Xi]):
+                    ctx.fail("state_values", "simulate with state_values given as %s is not state_values[index path]" % svname,
+                             dict(inp, state_values=svname), np.asarray(X).tolist()[:6], sva[Xi].tolist()[:6])
+        # ---- mc_sample_path: P dress, sample_size as NumPy int, init=0 explicit vs omitted default, no mutation
+        if ts >= 1:
+            st1 = stream[:max(ts - 1, 0)]
+            x0 = rng.randrange(n)
+            ref = canon(rows, ts, x0, None, st1, [])
+            for name, Pv in dresses[:9]:
+                okc, X = guard("mc_sample_path P as %s" % name, dict(inp, P_dress=name), lambda: mc_sample_path(
+                    Pv, init=rng.choice(NPI)(x0), sample_size=rng.choice(NPI)(ts), random_state=ScriptedRS(st1 + [0.5] * 16)))
+                ctx.count("dress:mc_sample_path P=%s" % name)
+                if okc and not same(X, ref):
+                    ctx.fail("dress", "mc_sample_path with P as %s / NumPy ints differs from the canonical call" % name, dict(inp, P_dress=name, init=x0), np.asarray(X).tolist(), ref.tolist())
+            okc, X = guard("mc_sample_path default init", inp, lambda: mc_sample_path(A64, sample_size=ts, random_state=ScriptedRS(st1 + [0.5] * 16)))
+            ctx.count("optional:mc_sample_path init omitted (=0)")
+            if okc and not same(X, canon(rows, ts, 0, None, st1, [])):
+                ctx.fail("optional_argument", "mc_sample_path without init does not start at state 0", inp, np.asarray(X).tolist(), None)
+    # ---- degenerate sizes
+    for P1, ts1, nr1 in (([[1.0]], 1, None), ([[1.0]], 5, 3), ([[1.0]], 3, 0), ([[0.5, 0.5], [1.0, 0.0]], 1, 0)):
+        ctx.count("degenerate:n=%d,ts=%d,num_reps=%s" % (len(P1), ts1, nr1))
+        for spv in (False, True):
+            okc, X = guard("degenerate chain", {"function": "simulate_indices", "P": P1, "ts": ts1, "num_reps": nr1, "sparse": spv},
+                           lambda: np.asarray(MarkovChain(sp.csr_matrix(np.array(P1)) if spv else P1).simulate_indices(ts1, init=0, num_reps=nr1, random_state=3)))
+            want_shape = (ts1,) if nr1 is None else (nr1, ts1)
+            if okc and (X.shape != want_shape or (X.size and (X.min() < 0 or X.max() >= len(P1) or (X[..., 0] != 0).any()))):
+                ctx.fail("shape", "degenerate chain: wrong shape or entries", {"function": "simulate_indices", "P": P1, "ts": ts1, "num_reps": nr1, "sparse": spv}, X.tolist(), list(want_shape))
+    # ---- DiscreteRV / random.draw: dress of q and k, several objects alive, no mutation, draw(k) default, size 0 / None
+    for it in range(40 if thorough else 14):
+        n = rng.choice([1, 2, 3, 5])
+        q = gen_row(rng, n, "dyadic") if it % 4 else [1.0] + [0.0] * (n - 1)
+        k = rng.choice([1, 2, 4])
+        us = [rng.choice([0.0, ONE_M, rng.randrange(64) / 64.0]) for _ in range(k)]
+        ref = [int(v) for v in DiscreteRV(np.array(q)).draw(k, random_state=ScriptedRS(us))]
+        inp = {"function": "DiscreteRV(hardening)", "q": q, "us": hx(us)}
+        ctx.case(("harden-drv", q, hx(us)), nontrivial=(n >= 2))
+        qforms = [("list", list(q)), ("tuple", tuple(q)), ("float32", np.array(q, dtype=np.float32)), ("non-contiguous view", np.array([q, q]).T[:, 0])]
+        if all(float(x).is_integer() for x in q):
+            qforms.append(("int list", [int(x) for x in q]))
+        d_other = DiscreteRV([0.25, 0.75])
+        for name, qv in qforms:
+            ctx.count("dress:q=%s" % name)
+            before = np.array(qv, copy=True)
+            d = DiscreteRV(qv)
+            d_other.draw(2, random_state=ScriptedRS([0.1, 0.9]))
+            okc, out = guard("DiscreteRV q as %s" % name, dict(inp, q_dress=name), lambda: d.draw(rng.choice(NPI)(k), random_state=ScriptedRS(us)))
+            if okc and [int(v) for v in out] != ref:
+                ctx.fail("dress", "DiscreteRV.draw with q as %s / k as NumPy int differs from the canonical call" % name, dict(inp, q_dress=name), [int(v) for v in out], ref)
+            if okc:
+                out[...] = -1
+                again = [int(v) for v in d.draw(k, random_state=ScriptedRS(us))]
+                if again != ref:
+                    ctx.fail("stale_state", "second draw on the same DiscreteRV differs (result aliasing / state)", dict(inp, q_dress=name), again, ref)
+            if not np.array_equal(before, np.array(qv)) or [float(x) for x in np.asarray(d.q)] != [float(x) for x in q]:
+                ctx.fail("mutation", "DiscreteRV modified q", dict(inp, q_dress=name), None, None)
+        d = DiscreteRV(q)
+        okc, out = guard("DiscreteRV.draw() default k", inp, lambda: d.draw(random_state=ScriptedRS(us[:1])))
+        ctx.count("optional:DiscreteRV.draw k omitted (=1)")
+        if okc and [int(v) for v in np.atleast_1d(out)] != ref[:1]:
+            ctx.fail("optional_argument", "DiscreteRV.draw() is not draw(1)", inp, np.atleast_1d(out).tolist(), ref[:1])
+        # random.draw: size None -> scalar, size=0 -> empty array, size as Python int
+        cdf = np.cumsum(q)
+        itv = iter(us + [0.5] * 4)
+        orig = np.random.random
+        try:
+            np.random.random = lambda size=None: (next(itv) if size is None else np.array([next(itv) for _ in range(size)]))
+            okc, r0 = guard("random.draw size=0", inp, lambda: qru.draw(cdf, 0))
+            okc1, r1 = guard("random.draw size omitted", inp, lambda: qru.draw(cdf))
+        finally:
+            np.random.random = orig
+        ctx.count("optional:random.draw size=0 / omitted")
+        if okc and (not isinstance(r0, np.ndarray) or r0.shape != (0,)):
+            ctx.fail("optional_argument", "random.draw(cdf, 0) is not an empty array (falsy-but-valid size)", inp, repr(r0), None)
+        if okc1 and (np.ndim(r1) != 0 or int(r1) != drv_expected_plain(q, us[0])):
+            ctx.fail("optional_argument", "random.draw(cdf) is not the scalar inverse-CDF image of its uniform", inp, repr(r1), drv_expected_plain(q, us[0]))
+
+
+def drv_expected_plain(q, u):
+    cdf = np.cumsum(np.array(q, dtype=float))
+    v = float(u) * cdf[-1]
+    j = 0
+    while j < len(cdf) and not (v < cdf[j]):
+        j += 1
+    return j
+
+
 FLOAT_AXIOMS = ("FloatAxioms.Prim2SF_valid", "FloatAxioms.SF2Prim_Prim2SF", "FloatAxioms.Prim2SF_SF2Prim", "FloatAxioms.ltb_spec",
                 "FloatAxioms.leb_spec", "FloatAxioms.add_spec", "FloatAxioms.mul_spec", "FloatAxioms.eqb_spec", "FloatAxioms.compare_spec",
                 "ClassicalDedekindReals.sig_forall_dec", "ClassicalDedekindReals.sig_not_dec", "Classical_Prop.classic",
@@ -703,6 +933,8 @@ def run(ctx):
     # ---- main interpreter (cases flagged bc_only are not run here)
     results = [None if c.get("bc_only") else run_case(c) for c in cases]
     ctype = "@chain float * Z * init_t * option Z * list Z * list float * res (bool * list (list Z))"
+
+    harden(ctx, thorough)
 
     # ---- exact instance tied as well: dyadic chains and dyadic uniforms (float arithmetic exact) run through NumQ
     qcases, qmeta = [], []
